@@ -50,6 +50,7 @@ class GapAnalysis:
         self.routes: list[Route] = []
         self.generic: list = []
         self.filters: dict[str, tuple] = {}  # list name -> (start anchor, end anchor, node)
+        self.partitions: list = []  # (source list, sub-lists, loop) of loops that only sort comments into sub-lists
         self.unresolved: list = []
 
     # ------------------------------------------------------------------ anchors
@@ -124,6 +125,38 @@ class GapAnalysis:
                         lo, found = nb, True  # zero-width edge case (comment glued to the anchor)
         return (lo or "START", hi or "END") if found else None
 
+    @staticmethod
+    def distributes(loop: ast.For):
+        """names of the local lists a loop hands its element to, when that is all the loop does with the element: every
+        use of the loop variable is a test operand or the sole argument of `<local>.append(...)`, and no path of the body
+        appends it twice.  None otherwise."""
+        if not isinstance(loop.target, ast.Name) or loop.orelse:
+            return None
+        v = loop.target.id
+        from sa import dtable
+        out = dtable.outcome(loop.body, {})
+        names = set()
+        for path in out.paths:
+            apps = [a for a in path if a.endswith(f".append({v})")]
+            if len(apps) > 1:
+                return None
+            names |= {a.split(".append(")[0] for a in apps}
+        if not names or not all(n.isidentifier() for n in names):
+            return None
+
+        def uses_ok(n, in_test=False):
+            if isinstance(n, ast.Name) and n.id == v:
+                return in_test
+            if isinstance(n, ast.Call) and isinstance(n.func, ast.Attribute) and n.func.attr == "append" and len(n.args) == 1 \
+                    and isinstance(n.args[0], ast.Name) and n.args[0].id == v and isinstance(n.func.value, ast.Name):
+                return True
+            if isinstance(n, (ast.If, ast.IfExp, ast.While)):
+                return uses_ok(n.test, True) and all(uses_ok(c, in_test) for c in ast.iter_child_nodes(n) if c is not n.test)
+            return all(uses_ok(c, in_test) for c in ast.iter_child_nodes(n))
+        if not all(uses_ok(b) for b in loop.body):
+            return None
+        return names
+
     # ------------------------------------------------------------------ scan
     def scan(self, f: Func, extra_env=None):
         self.env.update(extra_env or {})
@@ -140,6 +173,12 @@ class GapAnalysis:
                 for t in tgts:
                     if isinstance(t, ast.Name):
                         self.noncomment_lists.add(t.id)
+            if isinstance(val, ast.ListComp) and len(val.generators) == 1 and isinstance(val.generators[0].iter, ast.Name) \
+                    and val.generators[0].iter.id in self.filters and isinstance(val.elt, ast.Call) and not val.generators[0].ifs:
+                # `[Comment.from_cst(c) for c in inline_comments]` converts every comment of a filtered list: a route, like
+                # the loop that does the same with append
+                a, b, _ = self.filters[val.generators[0].iter.id]
+                self.routes.append(Route(a, b, f"filter:{val.generators[0].iter.id}", val, f.key, result=val.generators[0].iter.id))
             if isinstance(val, ast.ListComp):
                 conds = [c for comp in val.generators for c in comp.ifs]
                 br = self.byte_range(conds)
@@ -224,8 +263,17 @@ class GapAnalysis:
                             self.generic.append(("interior-loop", it, s))
                     # loops over a byte-range filtered comment list are routes of that filter
                     if isinstance(s.iter, ast.Name) and s.iter.id in self.filters:
-                        a, b, _ = self.filters[s.iter.id]
-                        self.routes.append(Route(a, b, f"filter:{s.iter.id}", s, f.key))
+                        a, b, src = self.filters[s.iter.id]
+                        parts = self.distributes(s)
+                        if parts:
+                            # `for c in comments: (inline if P(c) else own_line).append(c)` only sorts the comments into
+                            # sub-lists: each sub-list is a filter of the same span (disjoint from its siblings: one append
+                            # per iteration), the loop itself routes nothing
+                            for nm in parts:
+                                self.filters[nm] = (a, b, src)
+                            self.partitions.append((s.iter.id, frozenset(parts), s))
+                        else:
+                            self.routes.append(Route(a, b, f"filter:{s.iter.id}", s, f.key, result=s.iter.id))
                     if isinstance(s.iter, ast.Call) and isinstance(s.iter.func, ast.Name) and s.iter.func.id == "list" and s.iter.args \
                             and isinstance(s.iter.args[0], ast.Name):
                         # `for comment_node in list(outer_comments): if not (A.end <= c.start < B.start): continue`
